@@ -127,6 +127,11 @@ var universe = func() []baseURL {
 	add("empty", "empty", "")
 	add("long", "long", long10k, long10k[:10239]+"b", long10k+"a", "http://example.com/"+long10k, "http://example.com/"+long10k[:10239]+"b",
 		strings.Repeat("a/../", 2040)+"../sentinel.txt", plainURL+strings.Repeat("/", 10240), plainURL+"?"+strings.Repeat("%2F", 3414))
+	// URLs that agree in a long prefix whose length is a power of two (fixed-size buffers)
+	for _, n := range []int{256, 1024, 4096, 65536} {
+		pre := "http://example.com/" + strings.Repeat("a", n-19)
+		add("long", "long", pre, pre+"x", pre+"y", pre[:n-1]+"b")
+	}
 	return u
 }()
 
